@@ -5,7 +5,11 @@
 (* files: path (relative to the working directory), digest of the bytes,   *)
 (* role (a name for "the same logical file" in both builds: entry point,   *)
 (* chunk with a given set of inputs, asset of a given input, companion of  *)
-(* a role), whether the name template of the file contains [hash], the     *)
+(* a role), the name template that names the file (tpl: entry, chunk or    *)
+(* asset, decided per output) and whether THAT template contains [hash]    *)
+(* (hashed), the text found at the position of [hash] in the path (hp:      *)
+(* none / ok = 8 base32 characters / empty / bad:<text>; located with a    *)
+(* regular expression derived from the template), the                      *)
 (* references parsed out of the emitted text (import specifiers, url(),    *)
 (* asset URLs, sourceMappingURL, legal-comment link; resolved against the  *)
 (* file's directory / the public path) and the number of occurrences of    *)
@@ -33,6 +37,12 @@ SamePathSameBytes == Collisions = {}
 
 \* roles whose bytes differ between the two builds
 Changed == {f1.role : f1 \in {f \in B1 : \E f2 \in B2 : f2.role = f.role /\ f2.dig # f.dig}}
+\* ... and whose change has to show in the names of the files that refer to
+\* them: every chunk (hashed name or not: its isolated hash is part of its
+\* importers' names) and every asset whose own template contains [hash] (an
+\* asset template without [hash] opts out: importers contain only its path;
+\* Hash.tla, ChangePropagatesF)
+Propagating == {f1.role : f1 \in {f \in B1 : f.role \in Changed /\ (f.kind = "asset" => f.hashed)}}
 \* f refers to g: by a parsed reference, or g is a companion named after f
 Edge(B, f, g) == g.path \in ToSet(f.refs) \/ g.parent = f.role
 RECURSIVE ReachFrom(_, _, _)
@@ -44,7 +54,7 @@ ReachFrom(B, todo, seen) ==
 Reach(B, f) == ReachFrom(B, {f}, {})
 \* a change to a file changes the name of every (hashed) file that refers to it, transitively
 Stuck == {f1.role : f1 \in {f \in B1 : /\ f.hashed
-                                        /\ \E g \in Reach(B1, f) : g.role \in Changed
+                                        /\ \E g \in Reach(B1, f) : g.role \in Propagating
                                         /\ \E f2 \in B2 : f2.role = f.role /\ f2.path = f.path}}
 ChangePropagates == Stuck = {}
 
@@ -56,6 +66,11 @@ RefsResolve == Unresolved(B1) = {} /\ Unresolved(B2) = {}
 WithKeys(B) == {f.path : f \in {g \in B : g.keyhits > 0}}
 NoPlaceholderSurvives == WithKeys(B1) = {} /\ WithKeys(B2) = {} /\ Rec.metakeys = 0
 
+\* a name whose template contains [hash] carries 8 characters of the base32
+\* alphabet at that position (never the empty string)
+BadHash(B) == {f.path : f \in {g \in B : g.hashed /\ g.hp # "ok"}}
+NoEmptyHash == BadHash(B1) = {} /\ BadHash(B2) = {}
+
 \* roles are names: unique inside one build (otherwise the projection is wrong)
 RolesUnique(B) == \A f, g \in B : f.role = g.role => f.path = g.path
 WellFormed == RolesUnique(B1) /\ RolesUnique(B2)
@@ -65,7 +80,9 @@ Failing ==
   (IF ChangePropagates THEN {} ELSE {"ChangePropagates"}) \cup
   (IF RefsResolve THEN {} ELSE {"RefsResolve"}) \cup
   (IF NoPlaceholderSurvives THEN {} ELSE {"NoPlaceholderSurvives"}) \cup
+  (IF NoEmptyHash THEN {} ELSE {"NoEmptyHash"}) \cup
   (IF WellFormed THEN {} ELSE {"WellFormed"})
 Report == PrintT(<<"CASE", ToJson([i |-> i, failing |-> Failing, collisions |-> Collisions, stuck |-> Stuck, changed |-> Changed,
-                                    unresolved |-> Unresolved(B1) \cup Unresolved(B2), withkeys |-> WithKeys(B1) \cup WithKeys(B2)])>>)
+                                    unresolved |-> Unresolved(B1) \cup Unresolved(B2), withkeys |-> WithKeys(B1) \cup WithKeys(B2),
+                                    badhash |-> BadHash(B1) \cup BadHash(B2)])>>)
 =============================================================================
